@@ -343,14 +343,23 @@ def run(prop, tier):
     if prop == "C05":
         # every (reachable state, rejected call) pair: the rejected call is the last step, the replayer appends restarts
         last_rej = lambda ops: ops[-1].get("res") == "err"
-        kind_of = lambda ops: ops[-1].get("op")
+        # stratum: the kind of the rejected call, the reason it can be refused for (a wrong-dimension vector), and the kinds
+        # of call that shaped the state it is refused in (a refused evolve of a node WITH incoming edges differs from one without)
+        def kind_of(ops):
+            last = ops[-1]
+            bad = "vbad" in (last.get("vec"), last.get("v1"), last.get("v2"))
+            before = tuple(sorted({o.get("op") for o in ops[:-1] if o.get("res") == "ok" and o.get("op") not in ("VCreate", "VAdd")}))
+            node = last.get("old") or last.get("id") or last.get("id1")
+            linked = tuple(sorted({"in" if o.get("t") == node else "out" for o in ops[:-1]
+                                   if o.get("op") == "VLink" and o.get("res") == "ok" and node in (o.get("s"), o.get("t"))}))
+            return (last.get("op"), bad, before, linked)
         for nm, prof, mo in (("base", BASE, 2 if quick else 3), ("seeded_base", SEEDED_BASE, 2 if quick else 3),
-                             ("import", IMPORT, 2 if quick else 3), ("evolve", EVOLVE, 1 if quick else 2),
+                             ("import", IMPORT, 2 if quick else 3), ("evolve", EVOLVE, 2),
                              # on top of an edge history (incl. an edge to a node that is no vector): refused deletes, links ...
                              ("seeded_graph", SEEDED_G, 1 if quick else 2)):
             pr = dict(prof, MaxOps=mo, MaxRej=1)
             cr = corpus(chk, "MC_Kektor_rejected_" + nm, pr, workers=8, timeout=3000, rejleaf=True)
-            br, _ = vlib.behaviours_from_corpus(cr, max_behaviours=250 if quick else 60000, rng=rng, need=last_rej, stratum=kind_of)
+            br, _ = vlib.behaviours_from_corpus(cr, max_behaviours=300 if quick else 60000, rng=rng, need=last_rej, stratum=kind_of)
             for i, b in enumerate(br):
                 b["id"] = "rj_%s%d" % (nm, i)
             plans.append((pr, br))
